@@ -9,6 +9,7 @@
 from __future__ import annotations
 
 import logging
+import math
 from abc import ABC, abstractmethod
 from dataclasses import dataclass
 from typing import TYPE_CHECKING
@@ -397,9 +398,12 @@ class MIOArchive(Archive):
                     assert chop_position is not None
                     solution_clone.test_case.chop(chop_position)
                 covered_before = self._archive[target].is_covered
-                updated |= self._archive[target].add_solution(
-                    1.0 - normalise(fitness_value), solution_clone
-                )
+                h = 1.0 - normalise(fitness_value)
+                if fitness_value != 0.0:
+                    # Only a fitness of 0.0 means that the target is covered, but for a
+                    # tiny fitness value the subtraction is rounded to 1.0.
+                    h = min(h, math.nextafter(1.0, 0.0))
+                updated |= self._archive[target].add_solution(h, solution_clone)
                 # The goal was covered with this solution
                 # TODO(fk) replace with goal.is_covered?
                 if not covered_before and self._archive[target].is_covered:
